@@ -26,6 +26,9 @@ type c01Case struct {
 	Run2Perm []int      `json:"run2_order"` // order of tests in run 2
 	Record   string     `json:"record"`     // env | option : how updating is enabled in run 1
 	Count2   int        `json:"run2_count"` // run 2 executes every test this many times (-count)
+	// InitialCRLF: the pre-existing files have CRLF line ends (a checkout with core.autocrlf): every reader of the format drops
+	// the CR in front of the LF, so they hold the same entries
+	InitialCRLF bool `json:"initial_files_with_crlf,omitempty"`
 	Inter2   []int      `json:"run2_interleave,omitempty"` // if set: run 2 interleaves the tests like parallel tests (choices of which live test moves next)
 }
 
@@ -114,6 +117,7 @@ func genC01(t *rapid.T) c01Case {
 		}
 		c.Tests = append(c.Tests, tp)
 	}
+	c.InitialCRLF = rapid.IntRange(0, 4).Draw(t, "initialcrlf") == 0
 	c.Run2Mode = rapid.SampledFrom([]string{"default", "update_false", "ci", "clean"}).Draw(t, "mode2")
 	c.Run2Perm = rapid.Permutation(indices(ntests)).Draw(t, "perm")
 	c.Record = rapid.SampledFrom([]string{"env", "option"}).Draw(t, "record")
@@ -125,14 +129,18 @@ func genC01(t *rapid.T) c01Case {
 	return c
 }
 
-func writeInitial(root string, cfgs []CfgSpec, initial [][]Entry) {
+func writeInitial(root string, cfgs []CfgSpec, initial [][]Entry, crlf ...bool) {
 	for i, es := range initial {
 		if es == nil || i >= len(cfgs) {
 			continue
 		}
 		p := filepath.Join(root, cfgs[i].multiPath())
 		os.MkdirAll(filepath.Dir(p), 0o755)
-		os.WriteFile(p, []byte(refRender(es)), 0o644)
+		text := refRender(es)
+		if len(crlf) > 0 && crlf[0] && !strings.Contains(text, "\r") {
+			text = strings.ReplaceAll(text, "\n", "\r\n")
+		}
+		os.WriteFile(p, []byte(text), 0o644)
 	}
 }
 
@@ -150,7 +158,7 @@ func buildCfgs(root string, specs []CfgSpec, update *bool) []*Config {
 func checkC01(c c01Case) error {
 	root := scratchDir()
 	defer os.RemoveAll(root)
-	writeInitial(root, c.Cfgs, c.Initial)
+	writeInitial(root, c.Cfgs, c.Initial, c.InitialCRLF)
 
 	// run 1: record (update enabled)
 	var cfgs []*Config
@@ -260,6 +268,14 @@ func checkC01(c c01Case) error {
 
 func classifyC01(c c01Case) ([]string, bool) {
 	var cls []string
+	if c.InitialCRLF {
+		for _, es := range c.Initial {
+			if len(es) > 0 {
+				cls = append(cls, "preexisting_file_with_crlf_line_ends")
+				break
+			}
+		}
+	}
 	kinds := map[string]bool{}
 	for _, tp := range c.Tests {
 		if len(tp.Calls) >= 10 {
